@@ -49,7 +49,19 @@ class C16(Prop):
                     env[rng.choice(names)] = rng.choice(VALUES)      # unprefixed
                 elif names:
                     env[eff.lower() + rng.choice(names)] = rng.choice(VALUES)  # wrong case
-            yield {"tree": gt.jsonable(t), "prefix": prefix, "env": env}
+            case = {"tree": gt.jsonable(t), "prefix": prefix, "env": env}
+            # 40%: further levels (collection, overrides), loaded eagerly or with deferred merging
+            if rng.random() < 0.4:
+                more = [gt.jsonable(overlay(rng, t)) for _ in range(rng.randint(1, 2))]
+                allnames = set()
+                for lv in more:
+                    allnames.update("_".join(pp).upper() for pp, _ in gt.leaf_paths(gt.unjson(lv)))
+                for nm in allnames:
+                    if rng.random() < 0.6:
+                        env[eff + nm] = rng.choice(VALUES)
+                case["more"] = more
+                case["deferred"] = rng.random() < 0.6
+            yield case
 
     def enumerate_small(self, tier):
         # all trees over keys {a, b, a_b} x depth<=2 with int/bool leaves, one env value each
@@ -86,6 +98,12 @@ class C16(Prop):
             os.environ.update(case["env"])
             cfg = Cfg(defaults=tree, lazy=True)
             try:
+                more = [gt.unjson(m) for m in case.get("more", [])]
+                merge_now = not case.get("deferred", False)
+                if len(more) >= 1:
+                    cfg.load_collection(more[0], merge=merge_now)
+                if len(more) >= 2:
+                    cfg.load_overrides(more[1], merge=merge_now)
                 cfg.load_shell_env()
             except Exception as e:
                 return {"err": type(e).__name__}
@@ -97,16 +115,20 @@ class C16(Prop):
     def to_coq(self, case, obs):
         env = ct.lst([ct.pair(ct.s(k), ct.s(v)) for k, v in case["env"].items()])
         o = ct.result(obs, lambda d: ct.tree(gt.unjson(d)))
-        return "(mk %s %s %s %s)" % (ct.tree(gt.unjson(case["tree"])), ct.s(case["prefix"]), env, o)
+        more = ct.lst([ct.tree(gt.unjson(m)) for m in case.get("more", [])])
+        return "(mk %s %s %s %s %s)" % (ct.tree(gt.unjson(case["tree"])), more, ct.s(case["prefix"]), env, o)
 
     def nontrivial(self, case, obs):
         t = gt.unjson(case["tree"])
+        for m in case.get("more", []):
+            t = merge_py(t, gt.unjson(m))
         eff = case["prefix"].upper() + "_"
         names = [eff + "_".join(p).upper() for p, _ in gt.leaf_paths(t)]
         return len(set(names)) < len(names) or any(nm in case["env"] for nm in names)
 
     def classify(self, case, obs):
-        return "err:" + obs["err"] if "err" in obs else ("applied:%d" % min(3, len(list(gt.leaf_paths(gt.unjson(obs["ok"]))))))
+        lv = "levels:%d%s " % (1 + len(case.get("more", [])), "(deferred)" if case.get("deferred") else "")
+        return lv + "err:" + obs["err"] if "err" in obs else ("applied:%d" % min(3, len(list(gt.leaf_paths(gt.unjson(obs["ok"]))))))
 
     def shrink_candidates(self, case):
         t = case["tree"]
@@ -115,6 +137,11 @@ class C16(Prop):
             e2 = dict(env)
             del e2[k]
             yield dict(case, env=e2)
+        more = case.get("more", [])
+        for i in range(len(more)):
+            yield dict(case, more=more[:i] + more[i + 1:])
+            for m2 in shrink_tree(more[i]):
+                yield dict(case, more=more[:i] + [m2] + more[i + 1:])
         yield from (dict(case, tree=t2) for t2 in shrink_tree(t))
 
     def mutate(self, case, rng):
@@ -125,6 +152,40 @@ class C16(Prop):
             else:
                 env["INVOKE_" + rng.choice(["A", "A_B", "B"])] = rng.choice(VALUES)
             yield dict(case, env=env)
+
+
+def overlay(rng, base):
+    """a type-consistent further level over [base]: same kind at shared paths, plus new keys"""
+    out = {}
+    for k, v in base.items():
+        if rng.random() < 0.5:
+            continue
+        if isinstance(v, dict):
+            out[k] = overlay(rng, v)
+        elif v is None:
+            out[k] = None
+        elif isinstance(v, bool):
+            out[k] = not v
+        elif isinstance(v, int):
+            out[k] = v + 1
+        elif isinstance(v, str):
+            out[k] = v + "!"
+        else:
+            out[k] = v
+    for k in rng.sample(gt.KEYS, rng.randint(0, 2)):
+        if k not in base:
+            out[k] = gt.leaf(rng, "nbis") if rng.random() < 0.7 else {rng.choice(gt.KEYS): gt.leaf(rng, "bis")}
+    return out
+
+
+def merge_py(a, b):
+    out = dict(a)
+    for k, v in b.items():
+        if isinstance(v, dict) and isinstance(out.get(k), dict):
+            out[k] = merge_py(out[k], v)
+        else:
+            out[k] = v
+    return out
 
 
 def shrink_tree(t):
